@@ -6,6 +6,6 @@ export GOFLAGS=-mod=mod GOPROXY=off GOSUMDB=off GOTOOLCHAIN=local
 mkdir -p .work evidence replays
 cp /repo/go.sum xverif/go.sum
 ./engine/mkoverlay.sh plain > .work/overlay-plain.json
-(cd xverif && go build -overlay /verif/.work/overlay-plain.json -o /verif/.work/vcheck ./cmd/vcheck) || exit 1
+(cd xverif && go build -tags verif -overlay /verif/.work/overlay-plain.json -o /verif/.work/vcheck ./cmd/vcheck) || exit 1
 if [ -x ./engine/run_sched.sh ]; then ./engine/run_sched.sh build || exit 1; fi
 echo setup ok
